@@ -140,9 +140,10 @@ Example ex_num_hyps :
   (forall b, ex_numclean b -> ex_numval (ex_numprint b) = Some b).
 Proof. repeat split; intros b0 Hb; try discriminate; try reflexivity. rewrite Hb. reflexivity. Qed.
 
-Example ex_text_clean : forall t j, In j (sent_json t ex_o) -> JsonTextProofs.text_clean ex_numclean j.
+Example ex_text_clean : forall t j, In j (sent_json t ex_o) -> JsonTextProofs.text_clean ex_numprint ex_numclean j.
 Proof.
   intros t j H. destruct t; cbn in H; repeat (destruct H as [<-|H]); try contradiction;
+    (split; [|vm_compute; reflexivity]);
     repeat (first [ apply JsonTextProofs.TCobj; repeat constructor
                   | apply JsonTextProofs.TCstr; vm_compute; reflexivity
                   | apply JsonTextProofs.TCnum; reflexivity ]).
@@ -155,7 +156,7 @@ Example ex_bytes_body :
 Proof. split; vm_compute; reflexivity. Qed.
 
 Example ex_roundtrip_bytes : forall t, carries t ex_o = true ->
-  decode fixed (JsonText.parse_text StdJson ex_numval) (JsonText.parse_text StdJson ex_numval)
+  decode fixed (JsonText.parse_json StdJson ex_numval) (JsonText.parse_json StdJson ex_numval)
          (encode (JsonText.print ex_numprint) t (b "1") ex_o) = Some (ex_o, None).
 Proof.
   intros t Ct. destruct ex_num_hyps as (H1 & H2 & H3 & H4).
